@@ -297,7 +297,9 @@ func (s *Service) pruneOnHeaderDelete(ctx context.Context, height uint64) error 
 
 	s.checkpointMu.Lock()
 	defer s.checkpointMu.Unlock()
-	if height <= s.checkpoint.LastPrunedHeight {
+	// Deletions may be reported out of order, so the checkpoint only moves over
+	// the next height: anything lower that is yet to be reported must not be skipped.
+	if height != s.checkpoint.LastPrunedHeight+1 {
 		return nil
 	}
 	s.checkpoint.LastPrunedHeight = height
